@@ -98,7 +98,10 @@ fn kind_of(place: &str) -> &str {
 
 fn prop(c: &WorldCase, obs: &mut Obs) -> CaseResult {
     let c = WorldCase { tape: c.tape.clone(), backend: md_index(), variant: 0 };
-    let p = prepare(&c);
+    let Some(p) = prepare(&c) else {
+        obs.label("discarded-generator-invalid-world");
+        return Ok(());
+    };
     let files = match backends::generate("markdown", &[], &p.resolve, p.world, None) {
         GenOutcome::Files(f) => f,
         GenOutcome::Error(_) => return Ok(()),
